@@ -15,33 +15,30 @@ dependency lists mention registered modules only). Go's map iteration order is t
 namespace PC18
 open C18 PfC18
 
-/-! ### the defect and the partial theorem around it -/
+/-! ### `AddDependency` -/
 
-/-- **Finding (defect D3)**: `AddDependency("a", "a")` is accepted although it closes a cycle, and
-`listDeps` (hence `InitModuleServices("a")`, `DependenciesForModule("a")`, any later `AddDependency(x, "a")`)
-then never returns, whatever recursion depth is available. -/
-theorem self_dependency_accepted :
-    (addDependency (Graph.empty 1) 3 0 [0]).1 = .ok ∧
-    (addDependency (Graph.empty 1) 3 0 [0]).2.depsOf 0 = [0] ∧
-    (∀ fuel, listDeps (addDependency (Graph.empty 1) 3 0 [0]).2 fuel 0 = none) ∧
-    ¬ Acyclic (addDependency (Graph.empty 1) 3 0 [0]).2 := by
-  have hd : (addDependency (Graph.empty 1) 3 0 [0]).2.depsOf 0 = [0] := by decide
-  refine ⟨by decide, hd, listDeps_self_loop _ 0 (by rw [hd]; simp), ?_⟩
+/-- Adding a dependency that would close a cycle is rejected: if `AddDependency` succeeds on an acyclic
+graph the graph is still acyclic — for every graph, every module, every list of new dependencies
+(self dependencies and back edges through any number of existing edges included). -/
+theorem add_dependency_rejects_cycles (g : Graph) (hg : Acyclic g) (fuel : Nat) (name : Mod) (ds : List Mod)
+    (g' : Graph) (h : addDependency g fuel name ds = (.ok, g')) : Acyclic g' :=
+  addDependency_acyclic g hg fuel name ds g' h
+
+/- HISTORY (defect D3, fixed by a0dd941 "modules.AddDependency accepts a module depending on itself"):
+before the fix the check loop had no `newDep == name` test (`C18.addCheckOld`), the theorem above was
+only provable with the guard `∀ d ∈ ds, d ≠ name` (then named `add_dependency_rejects_cycles_partial`),
+and the following witness showed why. It is a statement about the OLD definition only. -/
+
+/-- the old rule accepted `AddDependency("a", "a")`, after which `listDeps` never returns. -/
+theorem self_dependency_was_accepted :
+    (addDependencyOld (Graph.empty 1) 3 0 [0]).1 = .ok ∧
+    (∀ fuel, listDeps (addDependencyOld (Graph.empty 1) 3 0 [0]).2 fuel 0 = none) ∧
+    ¬ Acyclic (addDependencyOld (Graph.empty 1) 3 0 [0]).2 ∧
+    (addDependency (Graph.empty 1) 3 0 [0]).1 = .circular := by
+  have hd : (addDependencyOld (Graph.empty 1) 3 0 [0]).2.depsOf 0 = [0] := by decide
+  refine ⟨by decide, listDeps_self_loop _ 0 (by rw [hd]; simp), ?_, by decide⟩
   intro hac
   exact hac.irrefl 0 (.direct (by rw [hd]; simp))
-
-/- The statement of the property, *false of the current code* by the witness above:
-
-   theorem add_dependency_rejects_cycles (g) (hg : Acyclic g) (h : addDependency g fuel name ds = (.ok, g')) :
-       Acyclic g'
-
-   What is proved is the statement with the exact guard `∀ d ∈ ds, d ≠ name`: -/
-
-/-- Adding dependencies other than the module itself: if `AddDependency` succeeds the graph is still
-acyclic (so whatever would close a cycle through existing edges is rejected). -/
-theorem add_dependency_rejects_cycles_partial (g : Graph) (hg : Acyclic g) (fuel : Nat) (name : Mod) (ds : List Mod)
-    (g' : Graph) (h : addDependency g fuel name ds = (.ok, g')) (hne : ∀ d ∈ ds, d ≠ name) : Acyclic g' :=
-  addDependency_acyclic g hg fuel name ds g' h hne
 
 /-- a concrete acyclic graph (2 depends on 0 and 1, 1 depends on 0), used by the non-vacuity examples. -/
 def diamondish : Graph := { n := 3, deps := [[], [0], [0, 1]] }
@@ -62,8 +59,9 @@ theorem diamondish_acyclic : Acyclic diamondish := by
     | 2 => simp [diamondish, Graph.depsOf] at hd; rcases hd with rfl | rfl <;> simp [diamondish]
     | k + 3 => simp [diamondish, Graph.depsOf] at hd
 
-/-- non-vacuity: a legal edge is accepted, a back edge is rejected. -/
-example : (addDependency diamondish 5 1 [0]).1 = .ok ∧ (addDependency diamondish 5 0 [2]).1 = .circular := by decide
+/-- non-vacuity: a legal edge is accepted; a back edge and a self dependency are rejected. -/
+example : (addDependency diamondish 5 1 [0]).1 = .ok ∧ (addDependency diamondish 5 0 [2]).1 = .circular ∧
+    (addDependency diamondish 5 1 [1]).1 = .circular ∧ (addDependency diamondish 5 2 [0, 2]).1 = .circular := by decide
 
 /-! ### `listDeps` / `orderedDeps` -/
 
@@ -78,6 +76,14 @@ theorem listDeps_terminates_on_acyclic (g : Graph) (r : Mod → Nat) (hr : Ranke
 returns: acyclicity is exactly what the callers of `listDeps` rely on. -/
 theorem listDeps_diverges_on_cycle (g : Graph) (m : Mod) (h : Reach g m m) : ∀ fuel, listDeps g fuel m = none :=
   fun fuel => listDeps_cycle g fuel m h
+
+/-- `listDeps` returns for every module **iff** the graph is acyclic (finite graph whose dependency
+lists mention registered modules only): "a rank exists" and "no module reaches itself" coincide there. -/
+theorem listDeps_terminates_iff_acyclic (g : Graph) (hclosed : ∀ m, ∀ d ∈ g.depsOf m, d < g.n) :
+    ((∀ m, ∃ fuel l, listDeps g fuel m = some l) ↔ ∃ r, Ranked g r) ∧
+    ((∃ r, Ranked g r) ↔ ∀ m, ¬ Reach g m m) :=
+  ⟨listDeps_terminates_iff g hclosed,
+   ⟨fun ⟨_, hr⟩ m hm => Nat.lt_irrefl _ (hr.reach hm), ranked_of_no_cycle g hclosed⟩⟩
 
 /-- `orderedDeps(m)` contains exactly the transitive dependencies of `m`, each once — for every
 acyclic graph and every map iteration order. -/
@@ -169,6 +175,20 @@ theorem dep_failure_propagates (mods : List Mod) (sd td : Mod → List Mod) (evs
   · intro hr
     have := hi.deps m (Or.inr (Or.inl (by rw [hr]; rfl))) d hd
     rw [hw] at this; cases this
+
+/-- Liveness-style complement: once a dependency `d` has failed to start this is permanent, and as long
+as a started dependant `m` has not terminated it is still waiting for its dependencies, the step in which
+it looks at `d` is enabled, and that step makes it Failed. (That the goroutine gets to that step is
+fairness of the Go scheduler plus the other dependencies' latches closing: not modelled.) -/
+theorem dep_failure_propagates_progress (mods : List Mod) (sd td : Mod → List Mod) (evs more : List REv) :
+    let s := (Sys.init mods sd td).run evs
+    ∀ d m, d ∈ s.startDeps m → (s.st d).ph = .failed → (s.st d).wasRunning = false →
+      (((s.run more).st d).ph = .failed ∧ ((s.run more).st d).wasRunning = false) ∧
+      ((s.st m).started = true → (s.st m).ph.terminal = false →
+        (∃ ok, (s.st m).ph = .waitDeps ok) ∧ ((s.step (.awaitFail m d)).st m).ph = .failed) := by
+  intro s d m hd hf hw
+  exact ⟨failed_to_start_stable_run s more d hf hw,
+    fun hs hnt => fail_step_enabled s (rinv_run _ (rinv_init mods sd td) evs) m d hd hf hw hs hnt⟩
 
 /-- non-vacuity: module 1 depends on module 0; 0 starts and runs, then 1's service is started; and a
 run in which 0 fails to start, so that 1 (started) fails without its service ever being started. -/
